@@ -66,7 +66,8 @@ contract("gherkin.pickles.compiler.Compiler._compile_scenario",
          modifies=["pickles", "self.id_generator._id_counter"],
          ensures=[
              clause("one-pickle", lambda pickles: len(pickles) == len(old(pickles)) + 1
-                    and forall(len(old(pickles)), lambda j: pickles[j] == old(pickles)[j]), serves=["C06"]),
+                    and forall(len(old(pickles)), lambda j: pickles[j] == old(pickles)[j]),
+                    serves=["C06", "C07", "C08", "C09", "C10", "C11"]),
              clause("source", lambda pickles, scenario, uri, language:
                     pickles[len(pickles) - 1]["astNodeIds"] == [scenario["id"]]
                     and pickles[len(pickles) - 1]["name"] == scenario["name"]
@@ -80,6 +81,15 @@ contract("gherkin.pickles.compiler.Compiler._compile_scenario",
                                pickles[len(pickles) - 1]["steps"][j] == plain_pstep(
                                    scenario_steps(background_steps, scenario), j, old(self.id_generator._id_counter))),
                     serves=["C07", "C10", "C09", "C11"]),
+             clause("content-source", lambda pickles, inherited_tags, background_steps, scenario, uri, language: same_source(
+                 pickles[len(old(pickles))], plain_pickle(scenario, inherited_tags, background_steps, uri, language)),
+                 serves=["C06", "C11"]),
+             clause("content-tags", lambda pickles, inherited_tags, background_steps, scenario, uri, language: same_tags(
+                 pickles[len(old(pickles))], plain_pickle(scenario, inherited_tags, background_steps, uri, language)),
+                 serves=["C08"]),
+             clause("content-steps", lambda pickles, inherited_tags, background_steps, scenario, uri, language: same_steps(
+                 pickles[len(old(pickles))], plain_pickle(scenario, inherited_tags, background_steps, uri, language)),
+                 serves=["C07", "C09", "C10"]),
              clause("ids", lambda self, pickles, background_steps, scenario:
                     pickles[len(pickles) - 1]["id"] == itos(old(self.id_generator._id_counter) + len(
                         scenario_steps(background_steps, scenario)))
@@ -109,7 +119,8 @@ contract("gherkin.pickles.compiler.Compiler._compile_scenario_outline",
              clause("count", lambda pickles, scenario, inherited_tags, background_steps, uri, language:
                     len(pickles) == len(old(pickles)) + len(outline_flat(len(scenario["examples"]), scenario, inherited_tags,
                                                                          background_steps, uri, language))
-                    and forall(len(old(pickles)), lambda j: pickles[j] == old(pickles)[j]), serves=["C06"]),
+                    and forall(len(old(pickles)), lambda j: pickles[j] == old(pickles)[j]),
+                    serves=["C06", "C07", "C08", "C09", "C10", "C11"]),
              clause("source", lambda pickles, scenario, inherited_tags, background_steps, uri, language: forall(
                  len(outline_flat(len(scenario["examples"]), scenario, inherited_tags, background_steps, uri, language)),
                  lambda k: same_source(pickles[len(old(pickles)) + k], outline_flat(
@@ -190,3 +201,123 @@ contract("gherkin.pickles.compiler.Compiler._compile_scenario_outline",
                         serves=["C11"]),
              ], types=dict(steps=MutList("PickleStep")), modifies=["self.id_generator"]),
          })
+
+
+
+
+# _compile_rule: the rule's scenarios in order, each with the feature background steps followed by the rule's own
+# background steps seen so far; the feature-level list is not modified (the rule-level list is a new list).
+contract("gherkin.pickles.compiler.Compiler._compile_rule",
+         args=dict(self="Compiler", uri=Str, feature_tags=ListOf("Tag"), feature_background_steps=MutList("Step"),
+                   rule="Rule", language=Str, pickles=MutList("Pickle")),
+         requires=[clause("well-formed", lambda rule: rule_wf(rule))],
+         returns=MutList("Pickle"),
+         modifies=["pickles", "self.id_generator._id_counter"],
+         ensures=[
+             clause("same-list", lambda pickles, result: result is pickles, serves=["C06"]),
+             clause("count", lambda pickles, rule, feature_tags, feature_background_steps, uri, language:
+                    len(pickles) == len(old(pickles)) + len(rule_flat(rule, len(rule["children"]), feature_background_steps,
+                                                                      feature_tags + rule["tags"], uri, language)[0])
+                    and forall(len(old(pickles)), lambda j: pickles[j] == old(pickles)[j]),
+                    serves=["C06", "C07", "C08", "C09", "C10", "C11"]),
+             clause("source", lambda pickles, rule, feature_tags, feature_background_steps, uri, language: forall(
+                 len(rule_flat(rule, len(rule["children"]), feature_background_steps, feature_tags + rule["tags"], uri, language)[0]),
+                 lambda k: same_source(pickles[len(old(pickles)) + k], rule_flat(
+                     rule, len(rule["children"]), feature_background_steps, feature_tags + rule["tags"], uri, language)[0][k])),
+                 serves=["C06", "C09", "C11"]),
+             clause("tags", lambda pickles, rule, feature_tags, feature_background_steps, uri, language: forall(
+                 len(rule_flat(rule, len(rule["children"]), feature_background_steps, feature_tags + rule["tags"], uri, language)[0]),
+                 lambda k: same_tags(pickles[len(old(pickles)) + k], rule_flat(
+                     rule, len(rule["children"]), feature_background_steps, feature_tags + rule["tags"], uri, language)[0][k])),
+                 serves=["C08"]),
+             clause("steps", lambda pickles, rule, feature_tags, feature_background_steps, uri, language: forall(
+                 len(rule_flat(rule, len(rule["children"]), feature_background_steps, feature_tags + rule["tags"], uri, language)[0]),
+                 lambda k: same_steps(pickles[len(old(pickles)) + k], rule_flat(
+                     rule, len(rule["children"]), feature_background_steps, feature_tags + rule["tags"], uri, language)[0][k])),
+                 serves=["C07", "C09", "C10"]),
+             clause("ids-advance", lambda self: self.id_generator._id_counter >= old(self.id_generator._id_counter), serves=["C11"]),
+         ],
+         loops={0: loop(invariant=[
+             clause("count", lambda pickles, _i, rule, feature_tags, feature_background_steps, uri, language:
+                    len(pickles) == len(old(pickles)) + len(rule_flat(rule, _i, feature_background_steps,
+                                                                      feature_tags + rule["tags"], uri, language)[0])
+                    and forall(len(old(pickles)), lambda j: pickles[j] == old(pickles)[j]),
+                    serves=["C06", "C07", "C08", "C09", "C10", "C11"]),
+             clause("scope", lambda background_steps, tags, _i, rule, feature_tags, feature_background_steps, uri, language:
+                    background_steps == rule_flat(rule, _i, feature_background_steps, feature_tags + rule["tags"], uri,
+                                                  language)[1]
+                    and tags == feature_tags + rule["tags"], serves=["C06", "C07", "C08", "C09", "C10", "C11"]),
+             clause("source", lambda pickles, _i, rule, feature_tags, feature_background_steps, uri, language: forall(
+                 len(rule_flat(rule, _i, feature_background_steps, feature_tags + rule["tags"], uri, language)[0]),
+                 lambda k: same_source(pickles[len(old(pickles)) + k], rule_flat(
+                     rule, _i, feature_background_steps, feature_tags + rule["tags"], uri, language)[0][k])),
+                 serves=["C06", "C09", "C11"]),
+             clause("tags", lambda pickles, _i, rule, feature_tags, feature_background_steps, uri, language: forall(
+                 len(rule_flat(rule, _i, feature_background_steps, feature_tags + rule["tags"], uri, language)[0]),
+                 lambda k: same_tags(pickles[len(old(pickles)) + k], rule_flat(
+                     rule, _i, feature_background_steps, feature_tags + rule["tags"], uri, language)[0][k])), serves=["C08"]),
+             clause("steps", lambda pickles, _i, rule, feature_tags, feature_background_steps, uri, language: forall(
+                 len(rule_flat(rule, _i, feature_background_steps, feature_tags + rule["tags"], uri, language)[0]),
+                 lambda k: same_steps(pickles[len(old(pickles)) + k], rule_flat(
+                     rule, _i, feature_background_steps, feature_tags + rule["tags"], uri, language)[0][k])),
+                 serves=["C07", "C09", "C10"]),
+             clause("ids-advance", lambda self: self.id_generator._id_counter >= old(self.id_generator._id_counter), serves=["C11"]),
+         ], modifies=["self.id_generator", "pickles"])})
+
+# compile: pickles of the whole document in document order; the document is not modified (frame: it is not listed).
+contract("gherkin.pickles.compiler.Compiler.compile",
+         args=dict(self="Compiler", gherkin_document="GherkinDocumentWithURI"),
+         requires=[clause("well-formed", lambda gherkin_document: implies(
+             "feature" in gherkin_document, feature_wf(gherkin_document["feature"])))],
+         returns=MutList("Pickle"),
+         modifies=["self.id_generator._id_counter"],
+         ensures=[
+             clause("no-feature", lambda gherkin_document, result: implies(
+                 not ("feature" in gherkin_document), len(result) == 0), serves=["C06", "C01"]),
+             clause("count", lambda gherkin_document, result: implies(
+                 "feature" in gherkin_document,
+                 len(result) == len(feature_flat(gherkin_document["feature"], len(gherkin_document["feature"]["children"]),
+                                                 gherkin_document["uri"])[0])), serves=["C06", "C07", "C08", "C09", "C10", "C11"]),
+             clause("source", lambda gherkin_document, result: implies("feature" in gherkin_document, forall(
+                 len(feature_flat(gherkin_document["feature"], len(gherkin_document["feature"]["children"]),
+                                  gherkin_document["uri"])[0]),
+                 lambda k: same_source(result[k], feature_flat(
+                     gherkin_document["feature"], len(gherkin_document["feature"]["children"]),
+                     gherkin_document["uri"])[0][k]))), serves=["C06", "C09", "C11"]),
+             clause("tags", lambda gherkin_document, result: implies("feature" in gherkin_document, forall(
+                 len(feature_flat(gherkin_document["feature"], len(gherkin_document["feature"]["children"]),
+                                  gherkin_document["uri"])[0]),
+                 lambda k: same_tags(result[k], feature_flat(
+                     gherkin_document["feature"], len(gherkin_document["feature"]["children"]),
+                     gherkin_document["uri"])[0][k]))), serves=["C08"]),
+             clause("steps", lambda gherkin_document, result: implies("feature" in gherkin_document, forall(
+                 len(feature_flat(gherkin_document["feature"], len(gherkin_document["feature"]["children"]),
+                                  gherkin_document["uri"])[0]),
+                 lambda k: same_steps(result[k], feature_flat(
+                     gherkin_document["feature"], len(gherkin_document["feature"]["children"]),
+                     gherkin_document["uri"])[0][k]))), serves=["C07", "C09", "C10"]),
+             clause("ids-advance", lambda self: self.id_generator._id_counter >= old(self.id_generator._id_counter), serves=["C11"]),
+         ],
+         loops={0: loop(invariant=[
+             clause("count", lambda pickles, _i, gherkin_document:
+                    len(pickles) == len(feature_flat(gherkin_document["feature"], _i, gherkin_document["uri"])[0]),
+                    serves=["C06", "C07", "C08", "C09", "C10", "C11"]),
+             clause("scope", lambda background_steps, _i, gherkin_document, uri, feature_tags, language, feature:
+                    background_steps == feature_flat(gherkin_document["feature"], _i, gherkin_document["uri"])[1]
+                    and uri == gherkin_document["uri"] and feature_tags == gherkin_document["feature"]["tags"]
+                    and language == gherkin_document["feature"]["language"] and feature == gherkin_document["feature"],
+                    serves=["C06", "C07", "C08", "C09", "C10", "C11"]),
+             clause("source", lambda pickles, _i, gherkin_document: forall(
+                 len(feature_flat(gherkin_document["feature"], _i, gherkin_document["uri"])[0]),
+                 lambda k: same_source(pickles[k], feature_flat(gherkin_document["feature"], _i, gherkin_document["uri"])[0][k])),
+                 serves=["C06", "C09", "C11"]),
+             clause("tags", lambda pickles, _i, gherkin_document: forall(
+                 len(feature_flat(gherkin_document["feature"], _i, gherkin_document["uri"])[0]),
+                 lambda k: same_tags(pickles[k], feature_flat(gherkin_document["feature"], _i, gherkin_document["uri"])[0][k])),
+                 serves=["C08"]),
+             clause("steps", lambda pickles, _i, gherkin_document: forall(
+                 len(feature_flat(gherkin_document["feature"], _i, gherkin_document["uri"])[0]),
+                 lambda k: same_steps(pickles[k], feature_flat(gherkin_document["feature"], _i, gherkin_document["uri"])[0][k])),
+                 serves=["C07", "C09", "C10"]),
+             clause("ids-advance", lambda self: self.id_generator._id_counter >= old(self.id_generator._id_counter), serves=["C11"]),
+         ], modifies=["self.id_generator"])})
